@@ -6,6 +6,7 @@ package c18
 import (
 	"bytes"
 	"crypto/ed25519"
+	"crypto/x509"
 	"fmt"
 	"net/url"
 	"sort"
@@ -948,6 +949,146 @@ func TestPropMutationHistory(t *testing.T) {
 				Value: rapid.SampledFrom([]string{"v", "", "text/plain", "a,b", "x y"}).Draw(t, "evalue"),
 				N:     rapid.IntRange(0, 1000).Draw(t, "en"),
 			})
+		}
+		return c
+	})
+}
+
+// ---------------------------------------------------------------------------------------
+// (f) shared certificate chains: several bundles are signed with ONE CertChain value (then each
+// counter-signed by its own second authority). Every bundle's bytes, once recorded, must stay
+// what they were while the other bundles are signed — sequentially and from goroutines.
+
+type SharedChainCase struct {
+	ChainLen   int   `json:"chain_len"` // certificates in the shared chain (1..4); 3 gives len 3 / cap 4 when built by NewCertChain
+	Second     []int `json:"second"`    // per bundle: fixture of the counter-signing authority
+	Version    string `json:"version"`
+	Concurrent bool  `json:"concurrent"`
+}
+
+var sharedChainProp = vh.Define("C18", "shared-chain", func(c SharedChainCase, r *vh.R) {
+	f0 := gen.Fixtures()[0]
+	certs := []*x509.Certificate{f0.Leaf, gen.CA(), gen.CA(), gen.CA()}[:c.ChainLen]
+	shared, err := certurl.NewCertChain(certs, []byte("ocsp"), nil)
+	if err != nil {
+		panic(err)
+	}
+	sharedDER := make([][]byte, len(shared))
+	for i, ac := range shared {
+		sharedDER[i] = ac.Cert.Raw
+	}
+	ver, _ := bversion.Parse(c.Version)
+	type signed struct {
+		b     *bundle.Bundle
+		bytes []byte
+		want  [][]byte
+	}
+	outs := make([]*signed, len(c.Second))
+	signOne := func(i int) error {
+		b := &bundle.Bundle{Version: ver}
+		if c.Version == "b1" {
+			b.PrimaryURL = mustURL("https://a.example/0")
+		}
+		ex := &bundle.Exchange{Request: bundle.Request{URL: mustURL("https://a.example/0")},
+			Response: bundle.Response{Status: 200, Header: map[string][]string{"Content-Type": {"text/plain"}}, Body: gen.Filler(40, uint64(i))}}
+		b.Exchanges = []*bundle.Exchange{ex}
+		s1, err := signature.NewSigner(ver, shared, f0.Key, mustURL("https://a.example/v"), time.Unix(1_700_000_000, 0), time.Hour)
+		if err != nil {
+			return err
+		}
+		id, err := ex.AddPayloadIntegrity(ver, 16)
+		if err != nil {
+			return err
+		}
+		if err := s1.AddExchange(ex, id); err != nil {
+			return err
+		}
+		if b.Signatures, err = s1.UpdateSignatures(nil); err != nil {
+			return err
+		}
+		f2 := gen.Fixtures()[c.Second[i]]
+		own, _ := certurl.NewCertChain(f2.Chain[:1], []byte("ocsp2"), nil)
+		s2, err := signature.NewSigner(ver, own, f2.Key, mustURL("https://a.example/v2"), time.Unix(1_700_000_000, 0), time.Hour)
+		if err != nil {
+			return err
+		}
+		if f2.Leaf.VerifyHostname("a.example") == nil {
+			if err := s2.AddExchange(ex, id); err != nil {
+				return err
+			}
+		}
+		if b.Signatures, err = s2.UpdateSignatures(b.Signatures); err != nil {
+			return err
+		}
+		var buf bytes.Buffer
+		if _, err := b.WriteTo(&buf); err != nil {
+			return err
+		}
+		outs[i] = &signed{b: b, bytes: append([]byte{}, buf.Bytes()...), want: append(append([][]byte{}, sharedDER...), f2.Leaf.Raw)}
+		return nil
+	}
+	errs := make([]error, len(c.Second))
+	if c.Concurrent {
+		var wg sync.WaitGroup
+		for i := range c.Second {
+			wg.Add(1)
+			go func(i int) { defer wg.Done(); errs[i] = signOne(i) }(i)
+		}
+		wg.Wait()
+		r.Class("concurrent")
+	} else {
+		for i := range c.Second {
+			errs[i] = signOne(i)
+		}
+		r.Class("sequential")
+	}
+	for i, e := range errs {
+		if e != nil {
+			r.Failf("sign-error", "bundle %d: %v", i, e)
+			return
+		}
+	}
+	// judged only now, after every bundle has been signed
+	for i, o := range outs {
+		var buf bytes.Buffer
+		if _, err := o.b.WriteTo(&buf); err != nil {
+			r.Failf("serializer-error", "bundle %d: %v", i, err)
+			return
+		}
+		if !bytes.Equal(buf.Bytes(), o.bytes) {
+			r.Failf("not-pure-shared-input", "bundle %d serialises differently after OTHER bundles were signed with the same certificate chain value (first difference at %d): signing wrote into shared state", i, firstDiff(buf.Bytes(), o.bytes))
+			return
+		}
+		if len(o.b.Signatures.Authorities) != len(o.want) {
+			r.Failf("authorities", "bundle %d has %d authorities, want %d", i, len(o.b.Signatures.Authorities), len(o.want))
+			return
+		}
+		for j, ac := range o.b.Signatures.Authorities {
+			if !bytes.Equal(ac.Cert.Raw, o.want[j]) {
+				r.Failf("not-pure-shared-input", "bundle %d authority %d is not the certificate its own signers supplied (another bundle's signer overwrote it through the shared chain)", i, j)
+				return
+			}
+		}
+	}
+	if len(shared) != c.ChainLen {
+		r.Failf("shared-input-modified", "the shared chain changed length")
+		return
+	}
+	for i, ac := range shared {
+		if !bytes.Equal(ac.Cert.Raw, sharedDER[i]) {
+			r.Failf("shared-input-modified", "certificate %d of the shared chain was replaced", i)
+			return
+		}
+	}
+	r.NT()
+	r.Classf("chain-len-%d", c.ChainLen)
+})
+
+func TestPropSharedChain(t *testing.T) {
+	sharedChainProp.Rapid(t, func(t *rapid.T) SharedChainCase {
+		c := SharedChainCase{ChainLen: rapid.IntRange(1, 4).Draw(t, "chainlen"), Version: rapid.SampledFrom([]string{"b1", "b2"}).Draw(t, "version"), Concurrent: rapid.Bool().Draw(t, "concurrent")}
+		for i := rapid.IntRange(2, 5).Draw(t, "nbundles"); i > 0; i-- {
+			c.Second = append(c.Second, rapid.SampledFrom([]int{1, 2, 4, 5}).Draw(t, "second"))
 		}
 		return c
 	})
